@@ -690,6 +690,14 @@ Lemma pack_args_order :
   [[bos """storeCommitment"""; bos "uint64(bid.Int64())"; bos "blockNumber"; bos "txHash"; bos "deacyStartTimeStamp";
     bos "decayEndTimeStamp"; bos "bidSignature"; bos "commitmentSignature"]].
 Proof. reflexivity. Qed.
+(* the parameter list of StoreCommitment itself, in order: the names used in the Pack call above are bound to the
+   caller's arguments in THIS order (swapping two same-typed parameter declarations breaks this lemma) *)
+Lemma store_params_order :
+  Generated.c07_store_params =
+  [bos "ctx context.Context"; bos "bid *big.Int"; bos "blockNumber uint64"; bos "txHash string";
+   bos "deacyStartTimeStamp uint64"; bos "decayEndTimeStamp uint64"; bos "bidSignature []byte";
+   bos "commitmentSignature []byte"].
+Proof. reflexivity. Qed.
 Lemma send_args_wiring :
   Generated.c07_send_args =
   [[bos "ctx"; bos "&evmclient.TxRequest{ To: &p.preconfContractAddr, CallData: callData, }"]].
